@@ -588,6 +588,12 @@ func RunJob(job *Job, verbose bool) (res *Result) {
 		}
 	case "lint":
 		x.lint(job.K)
+	case "nofault":
+		// re-run of a "success is not durable" finding: the state the fault-free run leaves must be the complete new state
+		if v := e.check(refDir, "new", &x.st); v != nil && ref.rep.Err == "" {
+			x.finding("nofault", n, "", &verdict{oracle: "success-not-durable:" + v.oracle, detail: v.detail},
+				fmt.Sprintf("%s returned success without any fault, but a process death right after it leaves the OLD state: the acknowledged effect is not on disk", vop))
+		}
 	case "cont":
 		if job.K < 0 || job.K > n {
 			return herr("crash index %d out of range 0..%d", job.K, n)
